@@ -276,7 +276,7 @@ def coq_eval(prop_id, imports, shards, timeout=900):
         p = os.path.join(d, "Cases%d.v" % i)
         with open(p, "w") as f:
             f.write(imports + "\n" + shards[i])
-        rc, out = sh(["coqc", "-noglob", "-Q", COQ, "SV", p], cwd=d, timeout=timeout)
+        rc, out = sh("ulimit -s unlimited 2>/dev/null || ulimit -s 1000000 2>/dev/null; exec coqc -noglob -Q '%s' SV '%s'" % (COQ, p), cwd=d, timeout=timeout)
         if rc != 0:
             raise RuntimeError("coqc failed on shard %d:\n%s" % (i, out[-2000:]))
         vals = []
@@ -290,6 +290,15 @@ def coq_eval(prop_id, imports, shards, timeout=900):
     finally:
         shutil.rmtree(d, ignore_errors=True)
     return res
+
+
+def case_defs(ty, terms, fn="verdict"):
+    """One Definition per case (keeps each term small), then a single Eval over all of them."""
+    src = []
+    for i, t in enumerate(terms):
+        src.append("Definition case_%d : %s := %s." % (i, ty, t))
+    src.append("Eval vm_compute in %s." % coq_list(["%s case_%d" % (fn, i) for i in range(len(terms))]))
+    return "\n".join(src) + "\n"
 
 
 def chunked(xs, n):
